@@ -161,9 +161,19 @@ func whGroupKind(in WHInput) (string, string, string, string) { // group, versio
 }
 
 func whTemplate(o WHObj) corev1.PodTemplateSpec {
+	// "<tag>+m": the same containers, but the template's own labels / annotations were edited (a restartedAt stamp, a
+	// version label): a new revision all the same
+	tag, meta := o.Tmpl, false
+	if strings.HasSuffix(tag, "+m") {
+		tag, meta = strings.TrimSuffix(tag, "+m"), true
+	}
 	t := corev1.PodTemplateSpec{
 		ObjectMeta: metav1.ObjectMeta{Labels: map[string]string{"app": "demo"}},
-		Spec:       corev1.PodSpec{Containers: []corev1.Container{{Name: "main", Image: "img:" + o.Tmpl}}},
+		Spec:       corev1.PodSpec{Containers: []corev1.Container{{Name: "main", Image: "img:" + tag}}},
+	}
+	if meta {
+		t.Labels["version"] = "next"
+		t.Annotations = map[string]string{"kubectl.kubernetes.io/restartedAt": "2026-01-01T00:00:00Z"}
 	}
 	if o.HashLabel != "" {
 		t.Labels[apps.DefaultDeploymentUniqueLabelKey] = o.HashLabel
@@ -790,6 +800,9 @@ func (webhookEngine) Gen(r *rand.Rand, idx int, tier string) any {
 	switch r.Intn(12) {
 	case 0, 1, 2, 3, 10, 11: // template change
 		nw.Tmpl = "v2"
+		if chance(r, 30) {
+			nw.Tmpl = base.Tmpl + "+m"
+		}
 	case 4: // rollout-id change only
 		nw.RID = pick(r, "r2", "r3", "")
 	case 5: // both
